@@ -129,6 +129,12 @@ func NewHeader(text []byte, r []*Reference) (*Header, error) {
 		if r.owner != nil || r.id >= 0 {
 			return nil, errUsedReference
 		}
+		if _, dup := bh.seenRefs[r.name]; dup {
+			return nil, errDupReference
+		}
+		bh.seenRefs[r.name] = int32(i)
+	}
+	for i, r := range bh.refs {
 		r.owner = bh
 		r.id = int32(i)
 	}
